@@ -110,7 +110,7 @@ def run(ctx):
             ml, mi = 100000, 100000
         u = rng.choice([5, 12, 30, 60]) if kind in ("BTree", "TreeSet") else rng.choice([4, 10, 25])
         length = rng.choice([10, 30, 60, 150]) if not ctx.quick() else rng.choice([10, 25, 50, 100])
-        keymodes = {"O": ["none-int", "str", "int"]}.get(fn[0], [None, "extreme"] if fn != "fs" else [None])
+        keymodes = {"O": ["none-int", "str", "int"]}.get(fn[0], [None, "extreme"])
         mode = rng.choice(keymodes)
         # a plain python list holding None and ints cannot be sorted by python (used by &= in the Python version)
         calls = gen_history(rng, kind, u, length, avoid0=(mode == "none-int"), selfops=True)
